@@ -78,7 +78,7 @@ def programs(draw, tier):
     for _ in range(draw(st.integers(2, 12 if tier == "quick" else 24))):
         kind = draw(st.sampled_from(["save", "save", "save_again", "load", "load", "autoload", "randomise", "reinit", "train", "reserved", "model_saver", "drift_restore", "load_reinit_save"]))
         op = {"op": kind, "m": draw(st.integers(0, len(models) - 1)), "f": draw(st.integers(0, nfiles - 1)), "md": draw(st.integers(0, len(metas) - 1)),
-              "loc": draw(st.sampled_from(["str", "str", "path", "fileobj"]))}     # documented: "location: str or file"
+              "loc": draw(st.sampled_from(["str", "str", "path", "fileobj", "fileobj_offset"]))}     # documented: "location: str or file"
         if kind == "reserved":
             op["key"] = draw(st.sampled_from(["rbm_am", "rbm_ph", "unitary_dict"]))
         if kind == "load":
@@ -162,7 +162,24 @@ def check(case):
             import pathlib
             if form == "path":
                 return fn(pathlib.Path(path(j)))
-            if form == "fileobj":
+            if form == "fileobj_offset" and mode == "rb":
+                # a stream that holds an EARLIER record (same layout, every tensor shifted by one) before this one, positioned at the
+                # start of the wanted record: reading starts where the caller positioned the stream
+                import io
+
+                def shift(o):
+                    if isinstance(o, torch.Tensor):
+                        return o + 1 if o.dtype.is_floating_point else o.clone()
+                    if isinstance(o, dict):
+                        return type(o)((k, shift(v)) for k, v in o.items())
+                    return o
+                raw = open(path(j), "rb").read()
+                pre = io.BytesIO()
+                torch.save(shift(torch.load(io.BytesIO(raw), weights_only=False)), pre)
+                stream = io.BytesIO(pre.getvalue() + raw)
+                stream.seek(len(pre.getvalue()))
+                return fn(stream)
+            if form in ("fileobj", "fileobj_offset"):
                 with open(path(j), mode) as fh:
                     return fn(fh)
             return fn(path(j))
